@@ -1,17 +1,36 @@
 """C18 - verdicts are a pure function of command, configuration, cwd and referenced files.
 
-Histories of 1..400 calls (analyses hitting far more than 32 distinct handler modules so that the
-LRU evicts, several configs, cwds, remote flags, whole main() runs in all three host shapes, MODE
-assignments, logging configured onto failing sinks in the middle) are executed in ONE Python
-process (harness/c18_worker.py); then the query is asked, twice.
+Four streams, all on the real code in real processes (harness/c18_worker.py):
+
+1. Histories of 1..400 calls (analyses hitting far more than 32 distinct handler modules so that the
+   LRU evicts, several configs, cwds, remote flags, whole main() runs in all three host shapes, MODE
+   assignments, logging configured onto failing sinks in the middle) executed in ONE Python process;
+   then the query is asked, twice.
+2. History oracle over a constructed pool (harness/c18_pool.py: every handler module, a script importing
+   each safe-listed module in each import spelling, scripts importing nothing next to m.py / m/ for every
+   m, the same bytes in clean and shadowed directories, every config text x command, cwd and remote
+   variants, wrappers, delegations, sql, redirects, substitutions, MCP tools, whole hook runs onto
+   working and failing log sinks): every item answered in a fresh process; then random permutations
+   (forwards and backwards) and ONE walk in which every ordered pair (leaker, victim) is consecutive -
+   the walk is PairWalk.pair_walk of the model (C18_pair_walk: complete, n*n+2n long) - in long-lived
+   processes, with the caller's Config objects shared or re-parsed; every answer must be the fresh one.
+   A wrong answer is shrunk (the analysis directly before; else delta debugging over the prefix, each
+   candidate in a fresh process) to a replayable history.
+3. Residue oracle (harness/c18_state.py): before and after EVERY analysis of a pass over the pool,
+   everything reachable from the dippy modules is fingerprinted - module globals, class attributes,
+   default-argument objects, closure cells, function attributes, functools caches (and the objects they
+   hand out), the caller's shared Config objects, process-level settings.  What one call changes must be
+   what Cache.residue says it changes (handler cache; MODE / _log_config / _log_disabled for main());
+   anything else is reported - with a concrete (leaker, victim) replay when the pool holds a victim,
+   as the residue itself (no-failing-input-found) when not.
+4. The static inventory of process state in the source (tools/tables/t18_cache.py) is tied to the model by
+   theorem C18_state_tie.
 
 Implementation-level oracle (model-free): the answer after the history is the answer of a fresh
 process asked only the query, and asking twice gives the same.
 Correspondence: Model/Cache.v - the hit/miss sequence of every _load_handler call and cache_info()
 equal the model's LRU on the recorded module names; MODE / _log_config / _log_disabled after the
-history equal the model's state; vars() of analyzer, cli, config, dippy, parable and every other
-dippy.* module are fingerprinted before and after: a changed global outside the model's state is
-reported (the model would be missing process state)."""
+history equal the model's state; per call, the changed state components equal Cache.residues."""
 from __future__ import annotations
 
 import concurrent.futures as cf
@@ -22,15 +41,21 @@ import shutil
 import subprocess
 import tempfile
 
-from . import core, lib
+from . import c18_pool, core, lib
 
 TRUSTED = [
-    "Coq 8.16.1 kernel and its VM (vm_compute for the two closed examples)",
+    "Coq 8.16.1 kernel and its VM (vm_compute for the closed examples and the state tie)",
     "axioms: none (every theorem of Props/C18.v prints 'Closed under the global context')",
-    "tools/tables/t18_cache.py (the lru_cache bound and the single-argument signature of _load_handler, regenerated on every run)",
+    "tools/tables/t18_cache.py (the lru_cache bound and signature of _load_handler; the static inventory of functools caches, global "
+    "statements, class-level containers, mutable defaults, table writes, foreign writes and argument writes - a syntactic scan, regenerated on every run)",
     "extraction: ExtrOcamlBasic only; OCaml 4.13.1; ocaml/driver.ml; cross-checked in Coq by vm_compute on a sample",
     "the model takes 'an analysis' to be any program whose only access to process state is get_handler (analyzer.analyze has "
-    "config, cwd and remote as explicit parameters): validated by the fingerprints of all dippy.* module globals before/after every history",
+    "config, cwd and remote as explicit parameters): validated per analysis by the residue oracle - harness/c18_state.py fingerprints every object "
+    "reachable from the dippy modules (globals, class attributes, defaults, closures, function attributes, functools caches and their values, "
+    "the caller's Config objects, process settings).  Its completeness is the hypothesis of C18_residue_sound: state kept where the walker does "
+    "not look (C extension objects, the file system, other processes) is not seen; the history oracle is the independent net for that",
+    "a child forked from a process that has imported dippy and analysed nothing is a fresh process (compared with really fresh interpreters "
+    "for every python victim and 1 item in 8 of the rest, each run)",
     "importlib.import_module is deterministic and returns the same module object for the same name (sys.modules); functools.lru_cache - modelled",
     "the handlers themselves, the parser and the file system contents are fixed during a history (the property's 'referenced files')",
 ]
@@ -38,7 +63,31 @@ TRUSTED = [
 PY = "/venv/bin/python"
 WORKER = os.path.join(os.path.dirname(os.path.abspath(__file__)), "c18_worker.py")
 SRC = os.path.join(lib.REPO, "src")
-ALLOWED_STATE = {"dippy:MODE", "config:_log_config", "config:_log_disabled", "cli:_load_handler"}
+# the process state of the model (Cache.state), by the name the snapshot gives it
+MODEL_STATE = {"cli:_load_handler": "lru", "dippy:MODE": "mode", "core.config:_log_config": "logcfg",
+               "core.config:_log_disabled": "logdis"}
+# outside the model, on whole main() runs and direct check_command calls only: the first setup_logging() of a process
+# installs the approvals-log FileHandler (one descriptor, logging.root, raiseExceptions off); without it the first
+# logging.warning() of approve/ask/deny makes the logging module install its stderr handler.  A write-only sink:
+# nothing in dippy reads logging.root; C15 checks that it never reaches stdout.
+MAIN_ONLY_STATE = {"proc:fds", "proc:logging.root", "proc:logging.raiseExceptions"}
+# Python's import memo: a module imported on first use (dippy.core.parser by the PostToolUse route, datetime by
+# log_decision) stays in sys.modules; its body runs once, as it would have at start-up
+IMPORT_MEMO = {"proc:sys.modules"}
+ALLOWED_STATE = set(MODEL_STATE) | MAIN_ONLY_STATE | IMPORT_MEMO
+
+
+def allowed(g, kind):
+    return g in MODEL_STATE or g in IMPORT_MEMO or g.startswith("import:") or (g in MAIN_ONLY_STATE and kind in ("main", "check"))
+
+
+def group(path):
+    """module:name of a snapshot path (module:name.attr[key]#...)"""
+    head, _, rest = path.partition(":")
+    for i, ch in enumerate(rest):
+        if ch in "[#" or (ch == "." and head not in ("proc", "import")):
+            return head + ":" + rest[:i]
+    return path
 
 CONFIGS = [
     "",
@@ -110,8 +159,12 @@ class World:
     """scratch HOME and cwds (fixed during a run)"""
 
     def __init__(self, root):
+        self.root = root
         self.home = os.path.join(root, "home")
         os.makedirs(os.path.join(self.home, ".claude"))
+        os.makedirs(os.path.join(self.home, ".dippy"))
+        with open(os.path.join(self.home, ".dippy", "config"), "w") as f:     # main() merges it below every project config
+            f.write('deny userzap "USER"\nallow-mcp mcp__user__*\nalias uz userzap\n')
         self.logs = os.path.join(root, "logs")
         os.makedirs(self.logs)
         with open(os.path.join(self.logs, "afile"), "w") as f:
@@ -125,7 +178,10 @@ class World:
             "logfull": (CONFIGS[2] + "set log /dev/full\n", True, False, True),
             "lognul": (CONFIGS[1] + f"set log {self.logs}/a\0b/audit.log\n", True, True, False),
             "lognotdir": (CONFIGS[3] + f"set log {self.logs}/afile/audit.log\n", True, True, False),
+            "mcp": (c18_pool.CONFIGS[7], None, False, False),
         }
+        logspec = {"logok": [f"{self.logs}/audit.log", True], "logfull": ["/dev/full", False],
+                   "lognul": [f"{self.logs}/a\0b/audit.log", False], "lognotdir": [f"{self.logs}/afile/audit.log", False]}
         for name, (text, log, cfail, dfail) in specs.items():
             d = os.path.join(root, "cwd_" + name)
             os.makedirs(d)
@@ -147,7 +203,7 @@ class World:
             if name == "lognotdir":
                 with open(os.path.join(d, "t.py"), "w") as f:           # same name, different bytes
                     f.write("import os\nos.system('x')\n")
-            self.cwds[name] = {"path": d, "log": log, "cfail": cfail, "dfail": dfail}
+            self.cwds[name] = {"path": d, "log": log, "cfail": cfail, "dfail": dfail, "logspec": logspec.get(name)}
 
 
 def gen_query(rng, world, commands, explicit):
@@ -195,12 +251,13 @@ def model_queries(world, queries, answers, per_query, loads, explicit):
             c = world.cwds[q["cwdn"]]
             v = envelope_verdict(a)
             det = envelope_mode(a) if explicit is None else explicit
+            spec = [c.get("logspec") or ["x", True]] if c["log"] else []
             if envelope_mode(a) == "?":
                 # a fixed mode flag with an input of another host's shape: main() answers {} before any decision
-                out.append(["configure", [["x", True]] if c["log"] else [], c["cfail"]])
+                out.append(["configure", spec, c["cfail"]])
                 dfails_direct = c["dfail"]
                 continue
-            out.append(["main", det, names, v[0], v[1], [["x", True]] if c["log"] else [], c["cfail"], c["dfail"]])
+            out.append(["main", det, names, v[0], v[1], spec, c["cfail"], c["dfail"]])
             dfails_direct = False
         elif k == "check":
             v = envelope_verdict(a)
@@ -216,6 +273,298 @@ def model_queries(world, queries, answers, per_query, loads, explicit):
         elif k == "log_decision":
             out.append(["log_decision", dfails_direct])
     return out
+
+
+# ============================================================================================ pool oracles
+def same_answer(q, a, b):
+    """a direct check_command call builds its envelope from the MODE a previous main() left (C18_envelope_refuted):
+    its verdict and reason are compared; everything else byte for byte"""
+    if q["k"] == "check":
+        return envelope_verdict(a) == envelope_verdict(b)
+    return a == b
+
+
+def pool_model_queries(world, it, names, answer):
+    """one executed pool item as queries of the model: a shell command through main() is QMain; the other routes of
+    main() (MCP tool, PostToolUse, bypass mode, not a shell tool) detect the mode, configure logging and possibly log one
+    decision without analysing anything; unreadable input does nothing at all"""
+    q = it["q"]
+    if q["k"] != "main" or it.get("route") == "shell":
+        return model_queries(world, [q], [answer], [len(names)], [[m, False] for m in names], None)
+    route = it.get("route")
+    if route == "bad-json":
+        return []
+    c = world.cwds[q["cwdn"]]
+    out = [["setmode", it["mode"]], ["configure", [c.get("logspec") or ["x", True]] if c["log"] else [], c["cfail"]]]
+    if route in ("mcp-hit", "bypass"):
+        out.append(["log_decision", c["dfail"]])
+    return out
+
+
+def ddmin(hist, fails, budget=60):
+    """smallest sub-history (order kept) that still fails; `fails(list)` runs one fresh process"""
+    n = 2
+    while len(hist) >= 2 and budget > 0:
+        size = max(1, len(hist) // n)
+        chunks = [hist[i:i + size] for i in range(0, len(hist), size)]
+        reduced = False
+        for i, c in enumerate(chunks):               # a chunk alone
+            budget -= 1
+            if fails(c):
+                hist, n, reduced = c, 2, True
+                break
+        if not reduced:
+            for i in range(len(chunks)):             # everything but a chunk
+                rest = [x for j, c in enumerate(chunks) if j != i for x in c]
+                budget -= 1
+                if rest and fails(rest):
+                    hist, n, reduced = rest, max(n - 1, 2), True
+                    break
+        if not reduced:
+            if n >= len(hist):
+                break
+            n = min(len(hist), 2 * n)
+    return hist
+
+
+def pool_oracles(out, world, tier, rng, model, xcheck, items):
+    """History oracle (permutations and all ordered pairs in one process == fresh process) and residue oracle
+    (nothing reachable from the dippy modules changes across an analysis, the model's state apart)."""
+    pool = [it["q"] for it in items]
+    n = len(pool)
+    for it in items:
+        out.count("pool_family", it["fam"])
+    thorough = tier == "thorough"
+    timer = lib.Timer()
+    times = out.extra.setdefault("pool_seconds", {})
+
+    def fresh1(q):
+        return worker({"history": [], "final": [q], "snapshot": False}, world.home)["answers"][0]
+
+    # fresh answers: each item in a child forked from a process that has imported dippy and analysed nothing; a
+    # sample (every python victim, 1 item in 8 of the rest) also in a really fresh interpreter: they must agree
+    k_f = 6
+    with cf.ThreadPoolExecutor(max_workers=12) as ex:
+        parts = list(ex.map(lambda j: worker({"forkpool": pool[j::k_f]}, world.home)["answers"], range(k_f)))
+        fresh = [None] * n
+        for j, part in enumerate(parts):
+            fresh[j::k_f] = part
+        sample = [i for i, it in enumerate(items) if it["fam"] == "py-victim" or i % 8 == 0]
+        spawned = list(ex.map(lambda i: fresh1(pool[i]), sample))
+    for i, a in zip(sample, spawned):
+        if a != fresh[i]:
+            out.violations.append({"kind": "fresh-nondeterministic", "what": "a fresh interpreter and a child forked before any analysis answer differently",
+                                   "query": pool[i], "a": a, "b": fresh[i], "history": [], "final": [pool[i], pool[i]], "argv": [],
+                                   "signature_text": "fresh:" + json.dumps(pool[i], sort_keys=True)[:200]})
+    times["fresh"] = timer.s()
+    out.extra["pool"] = {"items": n, "core": sum(1 for it in items if it["core"]), "fresh_interpreters_compared": len(sample),
+                         "fresh_verdicts": {}}
+    for it, a in zip(items, fresh):
+        v = a[0] if it["q"]["k"] == "analyze" else envelope_verdict(a)[0]
+        d = out.extra["pool"]["fresh_verdicts"].setdefault(it["fam"], {})
+        d[v] = d.get(v, 0) + 1
+
+    def history_fails(victim, share):
+        def f(hist_idx):
+            r = worker({"history": [pool[i] for i in hist_idx], "final": [pool[victim]], "snapshot": False,
+                        "share_config": share}, world.home)
+            return not same_answer(pool[victim], r["answers"][0], fresh[victim])
+        return f
+
+    reported = set()
+
+    def report(victim, prefix, share, got, stream, residue=None):
+        """shrink the history before a wrong answer to a replay; one report per victim"""
+        if victim in reported or len(reported) >= 12:
+            return
+        reported.add(victim)
+        fails = history_fails(victim, share)
+        hist = None
+        if prefix and fails(prefix[-1:]):
+            hist = prefix[-1:]                                  # the analysis directly before is enough
+        else:
+            ded = list(dict.fromkeys(prefix))
+            if fails(ded):
+                hist = ddmin(ded, fails)
+            elif fails(prefix):
+                hist = ddmin(prefix, fails) if len(prefix) <= 2000 else prefix
+        q = pool[victim]
+        if hist is None:
+            out.violations.append({"kind": "history-dependence", "what": "an item of the pool was answered differently from a fresh process inside "
+                                   f"a {stream}; the sub-history could not be reproduced in a fresh process", "final": [q, q], "history": [],
+                                   "argv": [], "after_history": got, "fresh": fresh[victim], "signature_text": "history-unreproduced:" + json.dumps(q, sort_keys=True)[:300]})
+            return
+        got = worker({"history": [pool[i] for i in hist], "final": [q], "snapshot": False, "share_config": share}, world.home)["answers"][0]
+        v = {"kind": "history-dependence", "stream": stream,
+             "what": "the answer after the history (shrunk from a %s) differs from a fresh process's" % stream,
+             "history": [pool[i] for i in hist], "final": [q, q], "argv": [], "share_config": share,
+             "after_history": got, "fresh": fresh[victim], "leaker_family": [items[i]["fam"] for i in hist][:5], "victim_family": items[victim]["fam"],
+             "signature_text": "history:" + json.dumps([q, []], sort_keys=True)[:300]}
+        if residue:
+            v["residue_left_by_the_history"] = residue
+        out.violations.append(v)
+
+    def check_seen(res, seq, share, stream):
+        """compare every answer an item got in one process with its fresh answer; earliest wrong answers first"""
+        bad = []
+        for idx_s, entries in res["seen"].items():
+            idx = int(idx_s)
+            for a, pos, cnt in entries:
+                if not same_answer(pool[idx], a, fresh[idx]):
+                    bad.append((pos, idx, a))
+        bad.sort()
+        for pos, idx, a in bad[:3]:
+            report(idx, seq[:pos], share, a, stream)
+        return len(bad)
+
+    # ---------------------------------------------------------------- residue oracle: one pass over the whole pool
+    order = list(range(n))
+    rng.shuffle(order)
+    k_res = 8
+    chunks = [order[i::k_res] for i in range(k_res)]
+    with cf.ThreadPoolExecutor(max_workers=8) as ex:
+        res_runs = list(ex.map(lambda c: worker({"pool": pool, "seq": c, "residue": True, "share_config": True}, world.home), chunks))
+    times["residue_runs"] = timer.s()
+    residue_by_group = {}     # group -> (leaker index, changes)
+    lazy_imports = set()
+    snap_ms, paths, shims = [], 0, set()
+    n_model = 0
+    for c, res in zip(chunks, res_runs):
+        snap_ms.append(res["snap_ms"] or 0)
+        paths = max(paths, res["paths"] or 0)
+        shims |= set(res["shims"])
+        check_seen(res, c, True, "residue pass")
+        changes_at = {pos: ch for pos, idx, ch in res["residue"]}
+        # the model's residue (Cache.residues) for this process's calls, in its order
+        mq_at = {}
+        mq = []
+        for pos, idx in enumerate(c):
+            names, a = res["steps"][pos]
+            one = pool_model_queries(world, items[idx], names, a)
+            mq_at[pos] = (len(mq), len(one))
+            mq += one
+        rec = len(xcheck) < 30 and len(mq) <= 12
+        mres = model.call(["cache_residue", [], mq], record=rec) if mq else []
+        if rec and mq:
+            xcheck.append((model.last_request, [], mres))
+        for pos, idx in enumerate(c):
+            it = items[idx]
+            ch = changes_at.get(pos, [])
+            measured = {}
+            for path, b, a, detail in ch:
+                measured.setdefault(group(path), []).append([path, b, a, detail])
+            start, cnt = mq_at[pos]
+            expected = set()
+            for r in mres[start:start + cnt]:
+                expected |= set(r)
+            modelled = True
+            out.case(json.dumps(["residue", it["q"]], sort_keys=True))
+            out.count("kind", "residue")
+            for g, lst in measured.items():
+                comp = MODEL_STATE.get(g)
+                if comp is not None:
+                    if modelled:
+                        n_model += 1
+                        ok = comp in expected or (comp == "lru" and res["steps"][pos][0])
+                        if not ok:
+                            out.disagreements.append({"correspondence": "Cache.residue <-> state left by one call (residue oracle)",
+                                                      "what": f"the call changed {g}, the model says it leaves {sorted(expected)}", "query": it["q"], "changes": lst[:5]})
+                    continue
+                if allowed(g, it["q"]["k"]):
+                    if g.startswith("import:") or g in IMPORT_MEMO:
+                        lazy_imports.add(g if g.startswith("import:") else lst[0][3][:120])
+                    continue
+                residue_by_group.setdefault(g, (idx, lst[:8]))
+            if modelled:
+                got = {MODEL_STATE[g] for g in measured if g in MODEL_STATE}
+                missing = {e for e in expected if e not in got}
+                if missing:
+                    out.disagreements.append({"correspondence": "Cache.residue <-> state left by one call (residue oracle)",
+                                              "what": f"the model says the call changes {sorted(expected)}, the process shows only {sorted(got)}",
+                                              "query": it["q"]})
+    out.extra["residue_oracle"] = {"analyses_snapshotted": n, "paths_per_snapshot": paths, "snapshot_ms": round(sum(snap_ms) / len(snap_ms), 1),
+                                   "functools_caches_found": sorted(shims), "model_state_changes_compared": n_model,
+                                   "unexplained_groups": sorted(residue_by_group),
+                                   "imports_on_first_use": sorted(lazy_imports)}
+    times["residue_compare"] = timer.s()
+    # residue nobody explains: look for a victim of it in the pool
+    for g, (leaker, changes) in sorted(residue_by_group.items())[:6]:
+        seq = [leaker] + [i for i in range(n)]
+        found = False
+        for share in (True, False):
+            res = worker({"pool": pool, "seq": seq, "residue": False, "share_config": share}, world.home)
+            cand = []
+            for idx_s, entries in res["seen"].items():
+                idx = int(idx_s)
+                for a, pos, cnt in entries:
+                    if not same_answer(pool[idx], a, fresh[idx]):
+                        cand.append((pos, idx, a))
+            cand.sort()
+            for pos, idx, a in cand[:40]:
+                if history_fails(idx, share)([leaker]):
+                    before = len(out.violations)
+                    reported.discard(idx)
+                    report(idx, [leaker], share, a, "search from the residue " + g, residue=changes)
+                    found = len(out.violations) > before
+                    if found:
+                        break
+            if found:
+                break
+        if not found:
+            out.disagreements.append({"correspondence": "Cache.state <-> objects reachable from the dippy modules (residue oracle)",
+                                      "what": f"an analysis left a change in {g}, which is neither state of the model nor a justified memo table; "
+                                              "no pool item was found whose answer it changes",
+                                      "left_by": pool[leaker], "changes": changes})
+
+    times["residue_search"] = timer.s()
+    # ---------------------------------------------------------------- history oracle: permutations (and back)
+    n_perm = 24 if thorough else 6
+    perms = []
+    for i in range(n_perm):
+        o = list(range(n))
+        rng.shuffle(o)
+        perms.append((o + o[::-1], i % 2 == 1))
+    # ---------------------------------------------------------------- history oracle: all ordered pairs, one walk
+    sub = list(range(n)) if thorough else [i for i, it in enumerate(items) if it["core"]]
+    m = len(sub)
+    walk = []
+    for i in range(m):
+        walk += [sub[ord(x)] for x in model.call(["pair_block", chr(m), chr(i)])]
+    small = [ord(x) for x in model.call(["pair_walk", chr(7)], record=True)]
+    xcheck.append((model.last_request, [], [chr(x) for x in small]))
+    blocks7 = []
+    for i in range(7):
+        blocks7 += [ord(x) for x in model.call(["pair_block", chr(7), chr(i)])]
+    pairs = set(zip(walk, walk[1:]))
+    if blocks7 != small or len(pairs) != m * m or len(walk) != m * m + 2 * m:
+        out.disagreements.append({"correspondence": "PairWalk.pair_walk <-> the walk the harness runs",
+                                  "what": "the blocks do not make up the walk of C18_pair_walk", "pairs": len(pairs), "expected": m * m, "length": len(walk)})
+    times["walk_from_model"] = timer.s()
+    k_walk = 12 if thorough else 6
+    size = (len(walk) + k_walk - 1) // k_walk
+    pieces = []
+    for j in range(k_walk):
+        lo = max(0, j * size - 1)                       # one element of overlap: the pair across the cut stays consecutive
+        pieces.append((walk[lo:(j + 1) * size], j % 2 == 1))
+    runs = [(p, s, "permutation and its reverse") for p, s in perms] + [(p, s, "walk over all ordered pairs") for p, s in pieces if p]
+    with cf.ThreadPoolExecutor(max_workers=8) as ex:
+        results = list(ex.map(lambda r: worker({"pool": pool, "seq": r[0], "residue": False, "share_config": r[1]}, world.home), runs))
+    times["history_runs"] = timer.s()
+    wrong = 0
+    covered = set()
+    for (seq, share, stream), res in zip(runs, results):
+        wrong += check_seen(res, seq, share, stream)
+        out.case(json.dumps([stream, lib.sha(seq), share]))
+        out.count("kind", "pool " + stream.split()[0])
+        out.count("history_length", "101-400" if len(seq) <= 400 else "401+")
+        if stream.startswith("walk"):
+            covered |= set(zip(seq, seq[1:]))
+    out.evaluations += sum(len(r[0]) for r in runs)
+    out.extra["history_oracle"] = {"pool": n, "pair_pool": m, "ordered_pairs_walked": len(covered & pairs), "ordered_pairs_expected": m * m,
+                                   "walk_length": len(walk), "walk_processes": k_walk, "permutations": n_perm,
+                                   "analyses_in_long_lived_processes": sum(len(r[0]) for r in runs), "wrong_answers": wrong}
+    if len(covered & pairs) != m * m:
+        out.disagreements.append({"correspondence": "generator", "what": "the walk pieces do not cover every ordered pair", "covered": len(covered & pairs), "expected": m * m})
 
 
 def run(tier, seed, replay=None):
@@ -236,12 +585,19 @@ def run(tier, seed, replay=None):
                        list(by_module.values()) + [f"{c} a b c" for c in by_module.values()]
         commands = CURATED + handler_cmds
         out.extra["handler_modules"] = len(by_module)
+        import dippy.cli.python as pyh
+        # the pool's files exist in every run (a replay names them); its random choices have their own stream
+        items = c18_pool.build(world, tier, random.Random(seed + 18), pyh.SAFE_MODULES, cli.KNOWN_HANDLERS)
 
         jobs = []   # (label, history, final, argv)
+        share_replay = False
         if replay and replay.get("history") is not None:
+            # scratch paths are recorded relative to the root of the run
+            replay = json.loads(json.dumps(replay).replace("{ROOT}", root))
+            share_replay = bool(replay.get("share_config"))
             jobs.append(("replay", replay["history"], replay["final"], replay.get("argv", [])))
         else:
-            n_hist = 150 if tier == "quick" else 1500
+            n_hist = 80 if tier == "quick" else 1500
             for i in range(n_hist):
                 explicit = rng.choice([None, None, None, "gemini", "cursor"])
                 L = rng.choice([1, 2, 5, 33, 40, 100, 400]) if i < 14 else rng.randint(1, 400)
@@ -251,7 +607,8 @@ def run(tier, seed, replay=None):
             # referenced files: the same command in every ordered pair of cwds (what one cwd's files say must
             # not stick to the next analysis of identical script bytes elsewhere)
             names = list(world.cwds)
-            for cmd in ("python s.py", "python t.py", "cd sub && python s.py", "python sub/s.py"):
+            # (thorough tier; in the quick tier the pool's py-victim and cwd families hold the same shapes)
+            for cmd in ("python s.py", "python t.py", "cd sub && python s.py", "python sub/s.py") if tier == "thorough" else ():
                 for a in names:
                     for b in names:
                         if a == b:
@@ -298,12 +655,27 @@ def run(tier, seed, replay=None):
             q, argv = item
             return worker({"history": [], "final": [q], "snapshot": False}, world.home, argv)["answers"][0]
 
+        if not replay:
+            pool_oracles(out, world, tier, rng, model, xcheck, items)
+
         with cf.ThreadPoolExecutor(max_workers=12) as ex:
             keys = list(fresh_keys)
-            fresh_ans = dict(zip(keys, ex.map(fresh, [fresh_keys[k] for k in keys])))
+            # children forked from a process (per flag set) that has imported dippy and analysed nothing; 20 of them are
+            # compared with really fresh interpreters just below
+            by_argv = {}
+            for k in keys:
+                by_argv.setdefault(tuple(fresh_keys[k][1]), []).append(k)
+            parts = []
+            for argv, ks in by_argv.items():
+                for j in range(4):
+                    if ks[j::4]:
+                        parts.append((argv, ks[j::4]))
+            fresh_ans = {}
+            for (argv, ks), ans in zip(parts, ex.map(lambda p: worker({"forkpool": [fresh_keys[k][0] for k in p[1]]}, world.home, p[0])["answers"], parts)):
+                fresh_ans.update(zip(ks, ans))
             # a fresh process is itself deterministic
             again = dict(zip(keys[:20], ex.map(fresh, [fresh_keys[k] for k in keys[:20]])))
-            results = list(ex.map(lambda j: worker({"history": [], "final": j[1] + j[2], "snapshot": True},
+            results = list(ex.map(lambda j: worker({"history": [], "final": j[1] + j[2], "snapshot": True, "share_config": share_replay},
                                                    world.home, j[3]), jobs))
         for k, a in again.items():
             if a != fresh_ans[k]:
@@ -343,7 +715,7 @@ def run(tier, seed, replay=None):
                 out.violations.append({"kind": "repetition", "what": "asking the same query twice in a row gives different answers",
                                        **base, "second": a2, "signature_text": "repeat:" + json.dumps(q, sort_keys=True)[:300]})
             # ---- hidden state
-            extra = [c for c in res["changed"] if c[0] not in ALLOWED_STATE]
+            extra = [c for c in res["changed"] if not allowed(group(c[0]), "main")]
             if extra:
                 out.disagreements.append({"correspondence": "Cache.state <-> module globals of the process",
                                           "what": "process state outside the model changed during the history", "changed": extra[:10],
@@ -387,6 +759,9 @@ def run(tier, seed, replay=None):
         if envelope_verdict(a_hist)[0] != envelope_verdict(a_fresh)[0]:
             out.violations.append({"kind": "history-dependence", "what": "check_command's verdict depends on MODE", "history": h, "final": [q],
                                    "signature_text": "history:check_command"})
+        # scratch paths relative to the root of the run, so that a replay file works in the next run's scratch directory
+        out.violations = json.loads(json.dumps(out.violations).replace(root, "{ROOT}"))
+        out.disagreements = json.loads(json.dumps(out.disagreements).replace(root, "{ROOT}"))
     finally:
         model.close()
         shutil.rmtree(root, ignore_errors=True)
@@ -396,8 +771,11 @@ def run(tier, seed, replay=None):
         out.disagreements.append({"correspondence": "extracted OCaml model <-> vm_compute in Coq", "detail": mism[:5]})
     out.extra["rule"] = (
         "random histories of 1..400 calls (70% analyze over one command per handler module x 4 argument shapes (bare, 1, 2, 3 words) + 24 curated compound "
-        "commands, 4 configs, 6 cwds, 10% remote; 16% whole main() runs in the three host shapes over cwds whose .dippy logs to a good "
+        "commands, 4 configs, 7 cwds, 10% remote; 16% whole main() runs in the three host shapes over cwds whose .dippy logs to a good "
         "file, /dev/full, a NUL path, a path below a file; MODE assignments; direct configure_logging/log_decision/check_command), "
         "with and without a mode flag; systematic: every handler module loaded, evicted by 40 others, asked again; every handler command primed with its other shapes and configs; logging-failure "
-        "sandwiches per host.  distinct = distinct (history, query, flags); every case is non-trivial (history of at least one call)")
+        "sandwiches per host.  Pool (harness/c18_pool.py, built from SAFE_MODULES and KNOWN_HANDLERS of the tree under test): fresh answer per item; "
+        "residue snapshots around every item once; permutations forwards and backwards; one walk with every ordered pair of the core sub-pool (quick) / of the "
+        "whole pool (thorough) consecutive, cut into pieces that overlap by one element, Config objects shared in every other process.  "
+        "distinct = distinct (history, query, flags) / pool item / walk piece; every case is non-trivial (history of at least one call)")
     return out
